@@ -441,7 +441,10 @@ type wfVariant struct {
 	short  bool   // versions v1.0.0 are written v1.0, v1 (accepted without a fixer and canonicalized)
 	gover  string // the go directive is replaced by (or added as) this version
 	pre    string // text put in front of the file
+	escmod bool   // the module path is written as a quoted string with an escape sequence for its last character
 }
+
+var moduleLineRE = regexp.MustCompile(`(?m)^module ([^\s"()]+)[ \t]*(//.*)?\r?$`)
 
 func quoteArgs(verb string, it mfItem) mfItem {
 	q := func(s string) string {
@@ -565,7 +568,18 @@ func fixModuleQuote(text string) string {
 	return strings.Replace(text, "module \"\\\"", "module \"", 1)
 }
 
-func canonFixer(path, vers string) (string, error) { return vers, nil }
+// canonFixer is the version fixer of the "fix" runs: like the go command's, it completes shortened versions (v1 -> v1.0.0,
+// v1.2 -> v1.2.0) and leaves everything else as it is (own code: the fixer is an input, not something under test).
+var shortVersionRE = regexp.MustCompile(`^v[0-9]+(\.[0-9]+)?$`)
+
+func canonFixer(path, vers string) (string, error) {
+	if shortVersionRE.MatchString(vers) {
+		for strings.Count(vers, ".") < 2 {
+			vers += ".0"
+		}
+	}
+	return vers, nil
+}
 
 var moduleBlockRE = regexp.MustCompile(`(?m)^module[ \t]*\(`)
 
@@ -593,9 +607,16 @@ func checkWellFormed(c *core.Case) ([]core.Violation, bool) {
 		{name: "line-starting-with-modules", pre: "require modules.example.com/x v1.0.0\n", noSpec: true},
 		{name: "block-line-starting-with-modules", pre: "require (\n\tmodules.example.com/x v1.0.0\n\tmodule.example.com/y v1.0.0\n)\n", noSpec: true},
 		{name: "dir-with-backslash-and-space", opener: "\\my dir", noSpec: true}, {name: "dir-with-tilde-and-bar", opener: "/~w|x", noSpec: true},
-		{name: "comment-trailing-space", tws: true, noSpec: true}, {name: "comment-trailing-space-crlf", tws: true, crlf: true, noSpec: true}}
+		{name: "module-quoted-with-escape", escmod: true, noSpec: true}, {name: "comment-trailing-space", tws: true, noSpec: true}, {name: "comment-trailing-space-crlf", tws: true, crlf: true, noSpec: true}}
 	for _, v := range variants {
 		text := renderVariant(in.Layout, v)
+		if v.escmod {
+			text = moduleLineRE.ReplaceAllStringFunc(text, func(line string) string {
+				m := moduleLineRE.FindStringSubmatch(line)
+				p := m[1]
+				return strings.Replace(line, p, fmt.Sprintf("\"%s\\x%02x\"", p[:len(p)-1], p[len(p)-1]), 1)
+			})
+		}
 		if v.quote {
 			text = strings.Replace(text, "\"\\\"", "\"", -1)
 			text = strings.Replace(text, "\\\"\"", "\"", -1)
@@ -663,11 +684,12 @@ func checkWellFormed(c *core.Case) ([]core.Violation, bool) {
 			if d := diffStates(&st1, &st2); len(d) > 0 {
 				add("c02:wf:values-changed", "directive values %v differ before and after formatting (%s, %s)\ninput:\n%s\noutput:\n%s", d, v.name, fixName, text, out)
 			}
-			if fixName == "fix" || in.Kind == "work" || v.opener != "" {
+			if in.Kind == "work" || v.opener != "" {
 				continue
 			}
 			// ---- C20: lax accepts what strict accepts, with the same module, go, require and retract values
-			lf, err := modfile.ParseLax("go.mod", []byte(text), nil)
+			// (with the same version fixer, where one is given)
+			lf, err := modfile.ParseLax("go.mod", []byte(text), fix)
 			if err != nil {
 				add("c20:lax-rejects", "ParseLax rejects a file the strict parser accepts (%s): %v\n%s", v.name, err, text)
 			} else {
@@ -677,6 +699,9 @@ func checkWellFormed(c *core.Case) ([]core.Violation, bool) {
 						add("c20:lax-values", "ParseLax gives different %s values than the strict parser (%s)\n%s", col, v.name, text)
 					}
 				}
+			}
+			if fixName == "fix" {
+				continue
 			}
 			// lax ignores unknown directives and blocks
 			nl := "\n"
